@@ -1694,7 +1694,7 @@ def _emit_block(
             speed_expr = _emit_expr(node.speed_ms)
             row_expr = _emit_expr(node.row)
             lines.append(
-                f"{indent}{start_func}({var_name}, {info['object']}, {info['cols_var']}, static_cast<int>({row_expr}), {_string_expr(node.text)}, static_cast<unsigned long>({speed_expr}), {_bool_expr(node.loop)});"
+                f"{indent}{start_func}({var_name}, {info['object']}, {info['cols_var']}, static_cast<int>({row_expr}), {_string_expr(node.text)}, static_cast<unsigned long>(({speed_expr}) < 0 ? 0 : ({speed_expr})), {_bool_expr(node.loop)});"
             )
             continue
 
